@@ -24,21 +24,31 @@ Print Assumptions format_cosmetic.
 
 (* comments_additive.  Full statement: enabling comments only adds comment text before/after
    commented elements.
-   Adds x y        x is y with additional TEXT items inserted; nothing of y is changed, dropped or reordered
    with_comment e c   the option record c with comment.enabled := e
-   all_nodes P n   P holds at every node of the tree n;  attrs_plain n: no attribute value of n has a ${..} field
-   Proved for ALL trees whose attribute values carry no explicit fields and all option records
-   (any comment templates / triggers).  _partial: when a commented attribute value (id/class)
-   contains a field, the comment repeats that field and every later tabstop number shifts; this
-   theorem compares tabstop numbers as well (the statement speaks about text only), so those
-   trees are excluded; where in the output the added text sits (right before / after the
-   element) is not expressed by [Adds]. *)
+   texts X            the strings of the content items X in order (a field counts with its placeholder)
+   Sub y x            y is a subsequence of x: x is y with items inserted, nothing of y changed, dropped
+                      or reordered
+   comments_additive_partial: for ALL trees and ALL option records (any templates / triggers) the text
+   items of the comment-off run are a subsequence of those of the comment-on run.
+   comments_additive_tabstops_partial: for trees whose attribute values carry no explicit fields, moreover
+   every kept item is identical (tabstop numbers included) and every inserted item is a text item
+   (Adds x y: x is y with TEXT items inserted).  (When an id / class value contains a field, the comment
+   repeats it and the later tabstop numbers shift: hence the hypothesis there.)
+   _partial: that the inserted items are exactly the instantiated comment templates and sit right
+   before / after the commented element is not expressed by Sub / Adds. *)
 Theorem comments_additive_partial c children :
+  ws_fmt (oc_fmt c) ->
+  Sub (texts (content (html_format (with_comment false c) children)))
+      (texts (content (html_format (with_comment true c) children))).
+Proof. exact (fun Hf => comments_additive_text_lemma c Hf children). Qed.
+Print Assumptions comments_additive_partial.
+
+Theorem comments_additive_tabstops_partial c children :
   ws_fmt (oc_fmt c) ->
   Forall (all_nodes (fun n => attrs_plain n = true)) children ->
   Adds (content (html_format (with_comment true c) children)) (content (html_format (with_comment false c) children)).
 Proof. exact (fun Hf => comments_additive_lemma c Hf children). Qed.
-Print Assumptions comments_additive_partial.
+Print Assumptions comments_additive_tabstops_partial.
 
 (* selfclose_local.  Full statement: the self-closing style changes only the ` /` or `/` before `>`.
    with_style s c     the option record c with output.selfClosingStyle := s
